@@ -59,6 +59,11 @@ INT_TYPES = {
 BASIC_SPELLINGS = set(['signed char', 'unsigned char', 'short', 'unsigned short', 'int', 'unsigned int',
                        'unsigned', 'long', 'unsigned long'])
 PLATFORM_WIDTH = set(['gulong', 'gsize', 'guintptr'])
+# aliases (incl. chains) defined in the included fixture namespace FooBar: C name -> (GIR name, base spelling)
+INCLUDED_ALIASES = {'FooBarId': ('FooBar.Id', 'guint32'), 'FooBarHandle': ('FooBar.Handle', 'guint32'),
+                    'FooBarPort': ('FooBar.Port', 'guint16'), 'FooBarServicePort': ('FooBar.ServicePort', 'guint16'),
+                    'FooBarOctet': ('FooBar.Octet', 'guint8'), 'FooBarBig': ('FooBar.Big', 'guint64'),
+                    'FooBarBigHandle': ('FooBar.BigHandle', 'guint64'), 'FooBarOffset': ('FooBar.Offset', 'gint32')}
 # The real lexer does not treat int/unsigned/char/... as type keywords while scanning macros, so
 # '#define X ((unsigned char) 5)' yields no symbol at all there (calibration, scannerlexer.l); casts are
 # therefore generated with typedef names only - the front end itself is outside every check.
@@ -120,7 +125,7 @@ _BOUNDARY = [0, 1, 44, 127, 128, 255, 256, 300, 32767, 32768, 65535, 65536, 7000
 
 @st.composite
 def _const(draw, idx, aliases):
-    kind = draw(st.sampled_from(['plain', 'cast-u', 'cast-u', 'cast-u', 'cast-s', 'cast-alias', 'wrap64', 'str',
+    kind = draw(st.sampled_from(['plain', 'cast-u', 'cast-u', 'cast-u', 'cast-s', 'cast-alias', 'cast-included-alias', 'wrap64', 'str',
                                  'double', 'bool', 'hidden', 'cfile']))
     name = 'FOO_C%d_%s' % (idx, draw(st.sampled_from(['MAX', 'MIN', 'MASK', 'X'])))
     d = {'d': 'const', 'name': name}
@@ -137,6 +142,11 @@ def _const(draw, idx, aliases):
         d['value'] = {'k': 'int', 'lit': lit, 'neg': draw(st.sampled_from([False, False, True])),
                       'compl': draw(st.sampled_from([False, False, False, True])),
                       'usuffix': draw(st.booleans()), 'hex': draw(st.booleans()), 'cast': cast}
+    elif kind == 'cast-included-alias':
+        al = draw(st.sampled_from(sorted(k for k in INCLUDED_ALIASES if k != 'FooBarOffset')))
+        lit = draw(st.one_of(st.sampled_from(_BOUNDARY), st.integers(0, 2 ** 64 - 1), st.integers(0, 70000)))
+        d['value'] = {'k': 'int', 'lit': lit, 'neg': draw(st.sampled_from([False, True])),
+                      'usuffix': draw(st.booleans()), 'cast': ty(al, kind='typedef')}
     elif kind == 'cast-s':
         t = draw(st.sampled_from(SIGNED))
         bits = INT_TYPES[t][1]
@@ -179,6 +189,10 @@ def _case(draw):
         decls.append(draw(_const(i, aliases)))
     decls = list(draw(st.permutations(decls)))
     return {'decls': decls}
+
+
+def _external_typedefs():
+    return [{'d': 'typedef', 'name': k, 'type': _cast_type(v[1]), 'file': None} for k, v in sorted(INCLUDED_ALIASES.items())]
 
 
 # ------------------------------------------------------------------ oracle
@@ -240,7 +254,7 @@ def check_case(case, ctx):
                 if len(pub) < 2 or common_word_prefix([m['name'] for m in pub]) != common_word_prefix([m['name'] for m in d['members']]):
                     for m in d['members']:
                         m.pop('private', None)
-    full = {'ns': NS, 'includes': ['GLib-2.0'], 'decls': decls, 'comments': [], 'dump': None}
+    full = {'ns': NS, 'includes': ['GLib-2.0', 'FooBar-1.0'], 'decls': decls, 'comments': [], 'dump': None}
     try:
         res = pipeline.run(full, ctx.mkscratch())
     except Exception as e:
@@ -310,8 +324,12 @@ def check_case(case, ctx):
                     while base in aliases:
                         base = aliases[base]
                         depth += 1
+                    included = None
+                    if base in INCLUDED_ALIASES:
+                        included, base = INCLUDED_ALIASES[base]
+                        ctx.label('const-included-alias-chain')
                     gir, bits, signed = INT_TYPES[base]
-                    exp_type = spelled[3:] if depth else gir
+                    exp_type = included if (included and not depth) else (spelled[3:] if depth else gir)
                 elif v.get('wrap'):
                     uns = v['wrap'] == 'G_GUINT64_CONSTANT' or v.get('usuffix')
                     base = 'guint64' if uns else 'gint64'
@@ -329,7 +347,9 @@ def check_case(case, ctx):
                     expv = written
                 if el.get('value') != str(expv):
                     cls = 'unsigned-%d' % bits if not signed else 'signed'
-                    if depth >= 2:
+                    if included:
+                        clause = 'unsigned-wrap:included-alias'
+                    elif depth >= 2:
                         clause = 'unsigned-wrap:alias-chain'
                     elif base in PLATFORM_WIDTH or base in ('unsigned long', 'size_t'):
                         clause = 'unsigned-wrap:platform-width-type'
